@@ -1,10 +1,117 @@
-(* C14 — compilation is deterministic under every schedule (temporary: witnesses only) *)
+(* C14 — compilation is deterministic under every schedule.
+   Closed statements about the port Models/Sched.v.  The positive theorems quantify over ALL schedules /
+   ALL Go map iteration orders; the `_refuted` theorems are witnesses where the faithful model of the code
+   is schedule dependent (open findings F-C14-CYCLE-SITE etc.), the C14_prefix theorems are about the code before the two
+   fix patches (the two patches under fixes) and justify them.  Partial: the back ends and the sequential phases after
+   parsing are not modelled; `C14_full` is the whole-model statement and `C14_full_refuted` shows that the
+   current code does not satisfy it (diagnostics). *)
 From Coq Require Import List Arith Bool ZArith Permutation.
-From FV Require Import Models.Sched Proofs.SchedWit.
+From FV Require Import Models.Sched Proofs.SchedSort Proofs.SchedNames Proofs.SchedTopo Proofs.SchedWit.
 Import ListNotations.
 
+(* the full statement over the model: every observable of two complete runs agrees *)
+Definition C14_full : Prop :=
+  forall P roots s1 s2,
+    complete (run false P roots s1) = true -> complete (run false P roots s2) = true ->
+    exit_status (run false P roots s1) = exit_status (run false P roots s2) /\
+    sorted_diags (run false P roots s1) = sorted_diags (run false P roots s2) /\
+    (forall m, names_of (run false P roots s1) m = names_of (run false P roots s2) m).
+
+(* ---- literal names (repaired numbering: one LitCounters per Parser) *)
+Theorem C14_lit_names_local : forall P roots sched m,
+  finished (run false P roots sched) m = true ->
+  names_of (run false P roots sched) m = local_names ctr0 (events_of P m None).
+Proof. exact lit_names_local. Qed.
+Print Assumptions C14_lit_names_local.
+
+Theorem C14_lit_names_sched_indep : forall P roots s1 s2 m,
+  finished (run false P roots s1) m = true -> finished (run false P roots s2) m = true ->
+  names_of (run false P roots s1) m = names_of (run false P roots s2) m.
+Proof. exact lit_names_sched_indep. Qed.
+Print Assumptions C14_lit_names_sched_indep.
+
+Theorem C14_lit_names_nonvacuous :
+  finished (run false P_lits [3] s_ab) 1 = true /\ finished (run false P_lits [3] s_ba) 1 = true /\
+  names_of (run false P_lits [3] s_ab) 1 = [(KFn, 1)] /\ names_of (run false P_lits [3] s_ab) 2 = [(KFn, 1)] /\
+  s_names (run false P_lits [3] s_ab) <> s_names (run false P_lits [3] s_ba).
+Proof. exact names_nonvacuous. Qed.
+Print Assumptions C14_lit_names_nonvacuous.
+
+(* ---- diagnostics: the emitted order depends only on the per-key subsequences of the bag, hence not on the
+        interleaving as long as diagnostics with equal (nil, file, line) key keep their relative order
+        (e.g. because they come from one goroutine) *)
+Theorem C14_diag_sort_indep : forall b1 b2,
+  (forall k, filter (equiv diag_less k) b1 = filter (equiv diag_less k) b2) -> sort_diags b1 = sort_diags b2.
+Proof. exact sort_diags_by_key. Qed.
+Print Assumptions C14_diag_sort_indep.
+
+Theorem C14_diag_sort_nonvacuous :
+  [dA; dB] <> [dB; dA] /\
+  (forall k, filter (equiv diag_less k) [dA; dB] = filter (equiv diag_less k) [dB; dA]).
+Proof. exact diag_sort_nonvacuous. Qed.
+Print Assumptions C14_diag_sort_nonvacuous.
+
+(* ---- module order: independent of the enumeration order of ctx.Modules and of every enumeration of ctx.DepGraph *)
+Theorem C14_topo_perm_indep : forall g mo1 mo2 iter1 iter2,
+  NoDup (map fst g) -> Permutation mo1 mo2 ->
+  (forall i, Permutation g (iter1 i)) -> (forall i, Permutation g (iter2 i)) ->
+  topo g mo1 iter1 = topo g mo2 iter2.
+Proof. exact topo_perm_indep. Qed.
+Print Assumptions C14_topo_perm_indep.
+
+Theorem C14_topo_nonvacuous :
+  NoDup (map fst g_dia) /\ Permutation g_dia (rev g_dia) /\
+  topo g_dia [0; 1; 2; 3] (fun _ => g_dia) = [0; 1; 2; 3] /\
+  topo g_dia [3; 1; 0; 2] (fun k => if Nat.even k then rev g_dia else g_dia) = [0; 1; 2; 3].
+Proof. exact topo_nonvacuous. Qed.
+Print Assumptions C14_topo_nonvacuous.
+
+(* ---- emitTypeIDs (repaired): independent of the enumeration order of mir.Module.TypeIDs *)
+Theorem C14_typeids_perm_indep : forall m1 m2, NoDup (map fst m1) -> Permutation m1 m2 ->
+  emit_typeids m1 = emit_typeids m2.
+Proof. exact emit_typeids_perm. Qed.
+Print Assumptions C14_typeids_perm_indep.
+
+Theorem C14_typeids_nonvacuous :
+  NoDup (map fst m_tid) /\ Permutation m_tid (rev m_tid) /\ m_tid <> rev m_tid /\
+  map fst (emit_typeids m_tid) = [[95; 49]; [95; 49; 48]; [95; 50]].
+Proof. exact typeids_nonvacuous. Qed.
+Print Assumptions C14_typeids_nonvacuous.
+
+(* ---- where the current code is schedule dependent (open findings; replayed on the real compiler) *)
 Theorem C14_cycle_site_refuted :
   exists P roots s1 s2, complete (run false P roots s1) = true /\ complete (run false P roots s2) = true /\
     sorted_diags (run false P roots s1) <> sorted_diags (run false P roots s2).
 Proof. exact cycle_site_refuted. Qed.
 Print Assumptions C14_cycle_site_refuted.
+
+Theorem C14_missing_site_refuted :
+  exists P roots s1 s2, complete (run false P roots s1) = true /\ complete (run false P roots s2) = true /\
+    sorted_diags (run false P roots s1) <> sorted_diags (run false P roots s2).
+Proof. exact missing_site_refuted. Qed.
+Print Assumptions C14_missing_site_refuted.
+
+Theorem C14_same_line_diag_refuted :
+  exists P roots s1 s2, complete (run false P roots s1) = true /\ complete (run false P roots s2) = true /\
+    sorted_diags (run false P roots s1) <> sorted_diags (run false P roots s2).
+Proof. exact same_line_diag_refuted. Qed.
+Print Assumptions C14_same_line_diag_refuted.
+
+Theorem C14_full_refuted : ~ C14_full.
+Proof.
+  intros H. destruct cycle_site_refuted as (P & roots & s1 & s2 & H1 & H2 & Hne).
+  apply Hne. exact (proj1 (proj2 (H P roots s1 s2 H1 H2))).
+Qed.
+Print Assumptions C14_full_refuted.
+
+(* ---- the code before the fix patches *)
+Theorem C14_prefix_global_names_refuted :
+  exists P roots s1 s2, complete (run true P roots s1) = true /\ complete (run true P roots s2) = true /\
+    exists m, names_of (run true P roots s1) m <> names_of (run true P roots s2) m.
+Proof. exact prefix_global_names_refuted. Qed.
+Print Assumptions C14_prefix_global_names_refuted.
+
+Theorem C14_prefix_typeids_refuted :
+  exists (m1 m2 : tidmap), Permutation m1 m2 /\ emit_typeids_prefix m1 <> emit_typeids_prefix m2.
+Proof. exact prefix_typeids_refuted. Qed.
+Print Assumptions C14_prefix_typeids_refuted.
